@@ -2,13 +2,13 @@
 
    Engine side, proved here for the model of the pull engine (zw/Engine.v) over
    the ops of concatenation, `,` (op_merge/op_tine), `||`, `[ ]`, let / infix
-   (op_subx), if-then-else, assertions, words, bindings and closure creation:
-   whatever stacks a chain has processed, once it reports exhaustion every op
-   of it is in exactly the state it was constructed in.  The ops of `*`/`+`,
-   format strings and `apply` are outside this theorem (their model is tied to
-   the implementation and to the specification by the correspondence check
-   only); so is the equality engine = specification (Den.v), which the check
-   tests on generated programs. *)
+   (op_subx), if-then-else, assertions, words, bindings, closure creation,
+   `apply` and the closure operators `*`/`+`: whatever stacks a chain has
+   processed, once it reports exhaustion every op of it is in exactly the
+   state it was constructed in.  The op of format strings is outside this
+   theorem (its model is tied to the implementation and to the specification
+   by the correspondence check only); so is the equality engine =
+   specification (Den.v), which the check tests on generated programs. *)
 From Coq Require Import ZArith NArith List Bool String.
 From Dwgrep Require Import Radix Value Words Tree Engine Build EngineProofs.
 Import ListNotations.
@@ -17,24 +17,24 @@ Local Open Scope Z_scope.
 (* one pull keeps a working chain a working chain, and a pull that returns
    nothing leaves it pristine -- for every amount of fuel, environment, store,
    leaf context (an origin, or a branch of `,` at any nesting) *)
-Theorem C01_pull_invariant : forall P blks f env m c s r m' c' s' e,
+Theorem C01_pull_invariant : forall P blks, Forall quiet blks -> forall f env m c s r m' c' s' e,
   inv m -> cinv c -> nodone c -> next P blks f env m c s = Ret (r, m', c', s', e) ->
   inv m' /\ cinv c' /\ shape c c' /\ cpost c' (isnone r) /\ (r = None -> quiet m').
 Proof. exact main. Qed.
 
 (* a pull changes run-time state only: the constructed chain underneath is the same *)
-Theorem C01_pull_keeps_structure : forall P blks f env m c s r m' c' s' e,
+Theorem C01_pull_keeps_structure : forall P blks, Forall quiet blks -> forall f env m c s r m' c' s' e,
   inv m -> cinv c -> nodone c -> next P blks f env m c s = Ret (r, m', c', s', e) ->
   reset m' = reset m /\ csame c c'.
 Proof. exact mainR. Qed.
 
 (* pulled dry = as constructed, literally *)
-Theorem C01_engine_forgets : forall P blks f env m sl s outs m' c' s',
+Theorem C01_engine_forgets : forall P blks, Forall quiet blks -> forall f env m sl s outs m' c' s',
   quiet m -> drains P blks f env m (LOrigin sl) s outs m' c' s' -> m' = m /\ c' = LOrigin None.
 Proof. exact engine_forgets. Qed.
 
 (* so the second of two inputs is processed by the very chain the first one met *)
-Theorem C01_engine_stream : forall P blks f env m a b s outsA mA cA sA outsB mB cB sB,
+Theorem C01_engine_stream : forall P blks, Forall quiet blks -> forall f env m a b s outsA mA cA sA outsB mB cB sB,
   quiet m ->
   drains P blks f env m (LOrigin (Some a)) s outsA mA cA sA ->
   drains P blks f env mA (LOrigin (Some b)) sA outsB mB cB sB ->
@@ -66,6 +66,18 @@ Definition prog1 : tree :=
 
 Example C01_built_is_quiet : match built prog1 with Some m => quiet m | None => False end.
 Proof. vm_compute. repeat split; try reflexivity; try (intro; discriminate). Qed.
+
+(* a closure applied behind two producers, and a closure operator: the bodies of the blocks are pristine too *)
+Definition prog2 : tree :=
+  TCat [TAlt [TConst 1 DDec; TConst 2 DDec]; TBlock 0 (TCat [TRead (nm "dup"); TRead (nm "add")]); TRead (nm "apply");
+        TStar (TCat [TAssert (TPredSubx (TCat [TRead (nm "dup"); TConst 9 DDec; TRead (nm "?lt")])); TConst 1 DDec; TRead (nm "add")])].
+
+Example C01_built_blocks_quiet :
+  match build_program tc0 prog2 with BOk (m, blks) => quiet m /\ Forall quiet blks | BErr _ => False end.
+Proof. vm_compute. repeat split; try reflexivity; try (intro; discriminate); repeat constructor. Qed.
+
+Example C01_nonvacuous2 : option_map (@List.length event) (run_tree prog2) <> None.
+Proof. vm_compute. discriminate. Qed.
 
 Example C01_nonvacuous :
   option_map (@List.length event) (run_tree prog1) = Some 4%nat.
